@@ -2582,6 +2582,10 @@ func (p *Parser) caseItems(stop string) (items []*CaseItem) {
 				p.curErr("case patterns must be separated with %#q", or)
 			}
 		}
+		if len(ci.Patterns) == 0 && p.recoverError() {
+			// EOF right after the opening parenthesis; keep Pos and End usable
+			ci.Patterns = append(ci.Patterns, p.wordOne(&Lit{ValuePos: recoveredPos}))
+		}
 		old := p.preNested(switchCase)
 		p.next()
 		ci.Stmts, ci.Last = p.stmtList(stop)
